@@ -545,6 +545,139 @@ def run_pspace_indexing(ctx):
                 ctx.violation('ProductSpace[idx]', pn, 'asarray-raises:' + type(e).__name__, message=str(e)[:200])
 
 
+# ---------------------------------------------------------------------------------------------
+# W-ambient: coherence of ==, hash and membership on every comparison the repository's own suite makes
+
+
+class AmbientContract(object):
+    """Record-only contract attached to every ``__eq__`` a library class defines (sets, spaces, grids, partitions,
+    weightings, geometries, detectors, operators' helper objects): a comparison that comes out True must be symmetric and
+    the hashes must agree (where both objects are hashable); one that comes out False must be False the other way round;
+    ``x == x``.  On ``LinearSpace.__contains__``: membership iff the element's own space equals the space."""
+
+    def __init__(self, rec):
+        self.rec = rec
+        self.busy = False
+
+    def install(self):
+        import sys
+        import odl   # noqa: F401
+        me = self
+        classes = []
+        for mname, mod in list(sys.modules.items()):
+            if not mname.startswith('odl.') or '.test' in mname or mod is None:
+                continue
+            for cname, c in list(vars(mod).items()):
+                if isinstance(c, type) and getattr(c, '__module__', None) == mname and '__eq__' in vars(c) and c not in classes:
+                    classes.append(c)
+        for c in classes:
+            self._wrap_eq(c)
+        from odl.set.space import LinearSpace, LinearSpaceElement
+        for c in [k for k in self._subclasses(LinearSpace) if '__contains__' in vars(k) and k.__module__.startswith('odl.') and '.test' not in k.__module__]:
+            self._wrap_contains(c, LinearSpaceElement)
+        self.rec.note_add('ambient_eq_classes_wrapped', len(classes))
+
+    @staticmethod
+    def _subclasses(base):
+        out, todo = [], [base]
+        while todo:
+            c = todo.pop()
+            if c not in out:
+                out.append(c)
+                todo.extend(c.__subclasses__())
+        return out
+
+    def _wrap_eq(self, c):
+        me = self
+        orig = vars(c)['__eq__']
+        from odl.set.space import LinearSpaceElement
+
+        def __eq__(self, other):
+            r = orig(self, other)
+            if me.busy or r is NotImplemented or isinstance(self, LinearSpaceElement):
+                return r
+            # only the outermost comparison counts: a base-class __eq__ reached through super() compares a part of the state
+            if next((k for k in type(self).__mro__ if '__eq__' in vars(k)), None) is not c:
+                return r
+            me.busy = True
+            try:
+                me.check_eq(c, self, other, bool(r))
+            except Exception as e:
+                me.rec.note_add('ambient_contract_errors:' + type(e).__name__)
+            finally:
+                me.busy = False
+            return r
+        __eq__.__doc__ = orig.__doc__
+        try:
+            had_hash = vars(c).get('__hash__', 'absent')
+            setattr(c, '__eq__', __eq__)
+            if had_hash != 'absent':
+                setattr(c, '__hash__', had_hash)
+        except TypeError:
+            pass
+
+    def _wrap_contains(self, c, LinearSpaceElement):
+        me = self
+        orig = vars(c)['__contains__']
+
+        def __contains__(self, other):
+            r = orig(self, other)
+            if me.busy:
+                return r
+            me.busy = True
+            try:
+                if isinstance(other, LinearSpaceElement):
+                    me.rec.ev('ambient-membership')
+                    want = bool(other.space == self)
+                    if bool(r) != want:
+                        me.rec.violation(type(self).__name__, 'ambient', 'membership!=(element.space == space)', got=bool(r), want=want)
+            except Exception as e:
+                me.rec.note_add('ambient_contract_errors:' + type(e).__name__)
+            finally:
+                me.busy = False
+            return r
+        __contains__.__doc__ = orig.__doc__
+        try:
+            setattr(c, '__contains__', __contains__)
+        except TypeError:
+            pass
+
+    def check_eq(self, c, a, b, r):
+        self.rec.ev('ambient-eq')
+        comp = tname(a) if tname(a) == tname(b) else '%s~%s' % tuple(sorted((tname(a), tname(b))))
+        if not type(b).__module__.startswith('odl.'):
+            # comparison with a foreign object (None, str, numbers): only "not equal to something that is not a set" is demanded
+            return
+        back = (b == a)
+        if back is NotImplemented:
+            return
+        if bool(back) != r:
+            self.rec.violation(comp, 'ambient', 'asymmetric', forward=r, backward=bool(back))
+            return
+        if r:
+            try:
+                ha, hb = hash(a), hash(b)
+            except TypeError:
+                self.rec.note_add('ambient_unhashable')
+                return
+            if ha != hb:
+                self.rec.violation(comp, 'ambient', 'equal-but-hash-differs')
+        if a is not b and not (a == a):
+            self.rec.violation(comp, 'ambient', 'not-reflexive')
+
+
+def run_ambient(ctx):
+    from .c03 import ambient_suite
+    data = ambient_suite(ctx, {'VF_AMBIENT_EQ': '1', 'VF_AMBIENT_NO_CALLMON': '1'}, 'c20')
+    if not data:
+        return
+    st = data['stats']
+    ctx.note('ambient', {k: v for k, v in st.items() if k.startswith('ambient')})
+    ctx.ev('ambient-contract', int(st.get('ambient-eq', 0)) + int(st.get('ambient-membership', 0)))
+    for v in data['violations']:
+        ctx.violation(v['component'], v['config'], v['kind'], where='repository test-suite (W-ambient)', count=v['count'], example=v.get('example'))
+
+
 def run(ctx):
     ctx.note('rule', 'pool objects (hand-built incl. cross-type and near twins + one twin per constructor parameter) are '
                      'compared pairwise and in all triples; element creation / derived spaces / indexing cases are '
@@ -555,6 +688,8 @@ def run(ctx):
     if ctx.shard == 0:
         run_elements(ctx)
         run_pspace_indexing(ctx)
+        if ctx.thorough and ctx.round == 0:
+            run_ambient(ctx)
     for m in ('equivalence-laws', 'membership'):
         ctx.ev(m, 0)
     ctx.sample({'pool_example_types': sorted(set(tname(o) for _t, o in pool))[:40]})
